@@ -24,6 +24,9 @@ SHAPES = {
     "d16h2l2": dict(dim=16, heads=2, layers=2, ff=32),
     "d24h3l1": dict(dim=24, heads=3, layers=1, ff=48),
     "d32h4l3": dict(dim=32, heads=4, layers=3, ff=32),
+    # a model configured for long lines: decoder max_seq_len 512 (> the 500 that the attention / decoder-layer constructors
+    # default to), encoder positions for 520 frames
+    "d8h1l1long": dict(dim=8, heads=1, layers=1, ff=8, msl=512, enc_msl=520),
 }
 # (boundary bias, ignore bias): lines finish early / late / hit the cap; ignore symbols appear
 BIASES = [(0.0, 0.0), (1.2, 0.3), (-3.0, 0.8), (0.6, -3.0), (2.5, 0.0)]
@@ -48,10 +51,10 @@ def pristine(shape, bias_idx, seed):
     if key not in _MODELS:
         s = SHAPES[shape]
         torch.manual_seed(1000 * seed + 17 * bias_idx + len(shape) + s["dim"])
-        enc = transformer.LineSelfAttentionEncoder(dropout=0.0, max_seq_len=64, dim_model=s["dim"], dim_ff=s["ff"],
+        enc = transformer.LineSelfAttentionEncoder(dropout=0.0, max_seq_len=s.get("enc_msl", 64), dim_model=s["dim"], dim_ff=s["ff"],
                                                    nb_heads=s["heads"], nb_layers=1)
         net = transformer.TransformerOCR(Front(s["dim"]), enc, num_classes=NCHARS + 2, dropout=0.0, nb_layers=s["layers"],
-                                         dim_model=s["dim"], dim_ff=s["ff"], max_seq_len=16, nb_heads=s["heads"])
+                                         dim_model=s["dim"], dim_ff=s["ff"], max_seq_len=s.get("msl", 16), nb_heads=s["heads"])
         with torch.no_grad():
             # torch initialises the attention in-projection biases (and LayerNorm biases) to zero: a trained checkpoint does not
             # have zero biases, and a mix-up between two biases is invisible while both are zero - randomise every bias
